@@ -3,6 +3,7 @@
 # reverts /repo, and prints which properties raised a violation.
 ID=$1; TIER=${2:-quick}
 P=/verif/seeded/$ID/patch.diff
+[ -f /verif/seeded/$ID/patch_rebased.diff ] && P=/verif/seeded/$ID/patch_rebased.diff
 git -C /repo diff --quiet || { echo "/repo is dirty"; exit 2; }
 git -C /repo apply $P || { echo "patch does not apply"; exit 2; }
 for i in 01 02 03 04 05 06 07 08 09 10 11 12 13 14 15 16 17 18 19 20; do
